@@ -29,3 +29,76 @@ Section S.
   Definition established (x : N) (s s' : store) : Prop :=
     forall T w, lookup s x = Some (T, w) -> exists w', lookup s' x = Some (T, w') /\ typed T w'.
 End S.
+
+(* ---------------------------------------------------------------- reading a match backwards *)
+Definition splat_inner (p : pat) : pat :=
+  match p with PSplat q => q | PAnn (PSplat q) _ => q | _ => p end.
+
+(* a list of item patterns against a list of values: every non-splat item takes one value, a splat
+   item takes a (possibly empty) run of consecutive values, presented to it as a list *)
+Fixpoint recon_items (rc : pat -> val -> Prop) (ps : list pat) (vs : list val) : Prop :=
+  match ps with
+  | [] => vs = []
+  | p :: ps' =>
+    if is_splat p
+    then exists mid rest, vs = mid ++ rest /\ rc (splat_inner p) (VList mid) /\ recon_items rc ps' rest
+    else exists v rest, vs = v :: rest /\ rc p v /\ recon_items rc ps' rest
+  end.
+
+(* no default anywhere in the pattern *)
+Fixpoint nodef (p : pat) : bool :=
+  let fix go (l : list pat) : bool := match l with [] => true | q :: r => nodef q && go r end in
+  match p with
+  | PDefault _ _ => false
+  | PAnn q _ | PSplat q => nodef q
+  | PSeq ps _ | PDestr _ ps | PStruct _ ps => go ps
+  | POr a b | PAnd a b => nodef a && nodef b
+  | _ => true
+  end.
+
+Section Recon.
+  Variable inexact : iop -> num -> num -> num.
+  (* `recon s p v`: under the bindings s, the pattern p read as an expression denotes v:
+     a name denotes its binding, a wildcard anything, a literal anything == to it, a sequence
+     pattern a sequence whose elements are denoted item by item (splats spliced), an operator
+     pattern a value whose destructuring (inverse of the operator, see destructure_inverts)
+     is denoted by the operands, a struct pattern an instance of that struct, `and` both, `or`
+     either.  (fuel: nesting bound, as for assign) *)
+  Fixpoint recon (fuel : nat) (s : store) (p : pat) (v : val) : Prop :=
+    match fuel with
+    | O => False
+    | S f =>
+      match p with
+      | PWild => True
+      | PVar x => exists t, lookup s x = Some (t, v)
+      | PAnn q _ | PDefault q _ => recon f s q v
+      | PSeq ps _ => exists es, elements v = Some es /\ recon_items (recon f s) ps es
+      | PSplat _ => False
+      | POr a b => recon f s a v \/ recon f s b v
+      | PAnd a b => recon f s a v /\ recon f s b v
+      | PLit l => veq l v = true
+      | PDestr b args =>
+        exists r, destructure inexact b v (map known_of args) = Ok r /\ recon_items (recon f s) args r
+      | PStruct sid args => exists fs, v = VInst sid fs /\ recon_items (recon f s) args fs
+      end
+    end.
+End Recon.
+
+Definition extends (s s' : store) : Prop := forall x tv, lookup s x = Some tv -> lookup s' x = Some tv.
+
+(* ---------------------------------------------------------------- the constructors the operator patterns invert *)
+(* Prepend::run2 / Append::run2 on lists, vectors and bytes (other right/left operands raise) *)
+Definition prepend (h t : val) : outcome val :=
+  match t, h with
+  | VList l, _ => Ok (VList (h :: l))
+  | VVec l, VNum x => Ok (VVec (x :: l))
+  | VBytes l, VNum (NInt z) => if (0 <=? z)%Z && (z <? 256)%Z then Ok (VBytes (Z.to_N z :: l)) else Err EValue
+  | _, _ => Err EArg
+  end.
+Definition append (i l : val) : outcome val :=
+  match i, l with
+  | VList xs, _ => Ok (VList (xs ++ [l]))
+  | VVec xs, VNum x => Ok (VVec (xs ++ [x]))
+  | VBytes xs, VNum (NInt z) => if (0 <=? z)%Z && (z <? 256)%Z then Ok (VBytes (xs ++ [Z.to_N z])) else Err EValue
+  | _, _ => Err EArg
+  end.
